@@ -40,6 +40,10 @@ func schedFeature(repo, out string, replace map[string]string) {
 		var edits []edit
 		add := func(list []ast.Stmt) {
 			for _, s := range list {
+				switch s.(type) {
+				case *ast.CaseClause, *ast.CommClause:
+					continue // the body of a switch/select is a block of clauses: no statement may precede `case`
+				}
 				offs = append(offs, fset.Position(s.Pos()).Offset)
 			}
 		}
